@@ -161,3 +161,38 @@ func C07Reflect() {
 		}
 	})
 }
+
+type zzZeroWidthHolder struct {
+	L []struct{}
+	N uint8
+}
+
+// C07ReflectZeroWidth: arbitrary bytes into the reflection decoder for destinations whose list
+// elements have no wire representation (struct{}): the count field is all there is, so nothing but a
+// check on the count itself can bound the work. The work allowed is that of the largest list the
+// decoder accepts (4096 elements), whatever the count says. (Counts 3..4095 behave like 2 and 4096
+// and are left out to keep the number of paths small.)
+func C07ReflectZeroWidth() {
+	n := sym.Choose("n", 7)
+	in := sym.Bytes("in", n)
+	if n >= 4 {
+		l := uint32(in[0]) | uint32(in[1])<<8 | uint32(in[2])<<16 | uint32(in[3])<<24
+		sym.Assume(sym.Or(l <= 2, l >= 4096))
+	}
+	target := sym.Choose("target", 2)
+	sym.Bounded(16<<20+64*n, 4096+16, func() {
+		var err error
+		if target == 0 {
+			var v []struct{}
+			err = NewDecoder(nil, bytes.NewReader(in)).Decode(&v)
+		} else {
+			var v zzZeroWidthHolder
+			err = NewDecoder(nil, bytes.NewReader(in)).Decode(&v)
+		}
+		if err == nil {
+			sym.Reach("decoded")
+		} else {
+			sym.Reach("rejected")
+		}
+	})
+}
